@@ -1,7 +1,7 @@
 #!/bin/sh
 # usage: tools/seed_eval.sh <worktree-id> <n> <check ids...>   (development: evaluates a seeded change in its scratch worktree)
-WT=/tmp/wt/$1; N=$2; shift 2
-OUT=/tmp/seedrun/$(basename $WT)-$N; mkdir -p $OUT
+WT=${WT_ROOT:-/tmp/wt}/$1; N=$2; shift 2
+OUT=/tmp/seedrun/$(basename $(dirname $WT))-$(basename $WT)-$N; mkdir -p $OUT
 cd $WT && git checkout -q -- . && git checkout -q --detach $(git -C ${VERIF_REPO_MAIN:-/repo} rev-parse HEAD) && git apply out/$N/patch.diff || { echo "APPLY FAILED"; exit 2; }
 PYTHONPATH=$WT /venv/bin/python -W ignore out/$N/demo.py > $OUT/demo_with.log 2>&1; echo "demo with patch: exit=$?"
 for c in "$@"; do
